@@ -525,6 +525,69 @@ def release_rule(row):
 release_rule.released = {}
 
 
+def _reload_dumps(row):
+    """Yield (where, party, dump) for every dump of a channel object REBUILT FROM DISK."""
+    for i, st in enumerate(row["steps"]):
+        op, ex = st["op"], st.get("extra") or {}
+        rel = ex.get("reloaded")
+        if op[0] == "crash" and rel:
+            yield "step %d crash" % i, op[1], rel
+        if op[0] == "crashin" and ex.get("reload_before"):
+            yield "step %d crashin (before the call)" % i, op[1], ex["reload_before"]
+        if op[0] in RESTARTS and rel:
+            for p in PARTIES:
+                if rel.get(p):
+                    yield "step %d %s" % (i, op[0]), p, rel[p]
+        for p in PARTIES:
+            d = ((ex.get("sync1") or {}).get("reloaded") or {}).get(p)
+            if d:
+                yield "step %d crashin (interrupted restart)" % i, p, d
+
+
+def _flat(d, pre=""):
+    out = {}
+    for k, v in d.items():
+        if isinstance(v, dict):
+            out.update(_flat(v, pre + k + "."))
+        else:
+            out[pre + k] = v
+    return out
+
+
+def params_survive_reload(row):
+    """CHANNEL PARAMETERS SURVIVE EVERY RELOAD: every persisted OpenChannel / ChannelConfig
+    field that is fixed at funding time and feeds commitment construction, verification, the
+    scripts or the resync (channel type bits, thaw height, csv delays, dust limits, reserves,
+    min HTLC, max pending, max HTLCs, keys, flags, scid, initial balances, shutdown scripts,
+    revocation key locator, memo, tapscript root, custom blob ...; harness: vchParams) reads
+    back from the channel DB exactly as the live object had it when the channel was stored
+    (row init_params) - at every object rebuilt from disk, field by field."""
+    fails = []
+    init = row.get("init_params")
+    n = 0
+    if not init:
+        params_survive_reload.reloads = 0
+        return fails
+    seen = set()
+    for where, p, d in _reload_dumps(row):
+        if "params" not in d:
+            continue
+        n += 1
+        want, got = _flat(init[p]), _flat(d["params"])
+        for k in sorted(set(want) | set(got)):
+            if want.get(k) != got.get(k) and (p, k) not in seen:
+                seen.add((p, k))
+                fails.append("%s: %s's channel parameter %s was %r when the channel was stored and is %r after "
+                             "the reload (chan_type %s, bits %s)"
+                             % (where, p, k, want.get(k), got.get(k), row.get("chan_type"),
+                                init[p].get("chan_type")))
+    params_survive_reload.reloads = n
+    return fails
+
+
+params_survive_reload.reloads = 0
+
+
 def live_release_rule(row):
     """LIVE-RESYNC PROBE (terminal `liveprobe` step: channel_reestablish processed by the
     LIVE in-memory objects, which may hold an accepted but not yet revoked = not durable
@@ -1303,6 +1366,7 @@ PREDICATES = [
     ("no_errors", no_errors),
     ("rejected_no_change", rejected_no_change),
     ("reload_consistent", reload_consistent),
+    ("params_survive_reload", params_survive_reload),
     ("disk_tables", disk_tables),
     ("call_atomicity", call_atomicity),
     ("crashin_atomic", crashin_atomic),
